@@ -2,14 +2,14 @@
 import os
 import time
 
-from common import (NCPU, REPLAYS, HarnessError, cargo_build, known_findings, log, repo_state, run_capture, run_engine_miri,
+from common import (NCPU, REPLAYS, HarnessError, cargo_build, known_findings, log, repo_state, run_allocfault, run_capture, run_engine_miri,
                     run_engine_native, write_evidence)
 
 PROP = "C03"
 
 BUDGET = {
-    "quick": {"l1": 2_000_000, "l2": 1_000_000, "l1_miri": 192, "l2_miri": 96, "miri_procs": 16, "cpp": 40000},
-    "thorough": {"l1": 200_000_000, "l2": 100_000_000, "l1_miri": 2000, "l2_miri": 1000, "miri_procs": 16, "cpp": 4_000_000},
+    "quick": {"l1": 2_000_000, "l2": 1_000_000, "l1_miri": 192, "l2_miri": 96, "miri_procs": 16, "cpp": 40000, "allocfault": 600},
+    "thorough": {"l1": 200_000_000, "l2": 100_000_000, "l1_miri": 2000, "l2_miri": 1000, "miri_procs": 16, "cpp": 4_000_000, "allocfault": 30000},
 }
 
 
@@ -53,6 +53,16 @@ def check(tier, seed):
             absorb("%s-miri-%d" % (layer, i), st, 0)
         violations += viols
         log("[C03] %s miri: %d shape-distinct traces, %d violations (%.1fs)" % (layer, sum(s["runs"] for s in sts), len(viols), time.time() - t1))
+
+    # ---- failing allocations inside the Rust-owned writer (create / failed growth / destroy): memory oracles only
+    allocfault = None
+    if not violations:
+        t1 = time.time()
+        wbin = os.path.join(cargo_build(["write-sim"]), "write-sim")
+        allocfault, viols = run_allocfault(wbin, PROP, seed, b["allocfault"])
+        violations += viols
+        totals["evaluations"] += allocfault["processes"]
+        log("[C03] failing allocations: %s, %d violations (%.1fs)" % (allocfault, len(viols), time.time() - t1))
 
     cpp_cov = None
     if not violations:
@@ -100,6 +110,7 @@ def check(tier, seed):
         "ops_skipped_by_executor": sum(v for k, v in counters.items() if k.endswith(":ops_skipped")),
         "runs_per_hour": int(totals["evaluations"] / max(wall, 1e-9) * 3600),
         "cpp_layer": cpp_cov,
+        "failing_allocation_fault": allocfault,
         "oracles": ["O1 exactly-once (ledger: drop of a non-live id)", "O2 conservation (model live set == ledger live set after every operation)", "O3 no leak at end of history",
                     "O4 memory safety (Miri for Rust layers, ASan/UBSan/LSan for the C++ layer)", "O5 value integrity through safe views"],
         "components": {
